@@ -2,7 +2,10 @@ use crate::analysis::type_resolver::TypeResolver;
 use crate::models::EventInfo;
 use std::collections::HashMap;
 use std::path::Path;
-use syn::{Expr, ExprMethodCall, File as SynFile, FnArg, Lit, Pat, Type};
+use syn::{
+    Expr, ExprAsync, ExprConst, ExprMethodCall, ExprTryBlock, ExprUnsafe, File as SynFile, FnArg,
+    Lit, Pat, Type,
+};
 
 /// Parser for Tauri event emissions
 #[derive(Debug)]
@@ -241,6 +244,13 @@ impl EventParser {
                 );
             }
             Expr::If(expr_if) => {
+                self.extract_events_from_expr(
+                    &expr_if.cond,
+                    file_path,
+                    type_resolver,
+                    events,
+                    symbols,
+                );
                 self.extract_events_from_block(
                     &expr_if.then_branch.stmts,
                     file_path,
@@ -259,7 +269,23 @@ impl EventParser {
                 }
             }
             Expr::Match(expr_match) => {
+                self.extract_events_from_expr(
+                    &expr_match.expr,
+                    file_path,
+                    type_resolver,
+                    events,
+                    symbols,
+                );
                 for arm in &expr_match.arms {
+                    if let Some((_, guard)) = &arm.guard {
+                        self.extract_events_from_expr(
+                            guard,
+                            file_path,
+                            type_resolver,
+                            events,
+                            symbols,
+                        );
+                    }
                     self.extract_events_from_expr(
                         &arm.body,
                         file_path,
@@ -279,6 +305,13 @@ impl EventParser {
                 );
             }
             Expr::While(expr_while) => {
+                self.extract_events_from_expr(
+                    &expr_while.cond,
+                    file_path,
+                    type_resolver,
+                    events,
+                    symbols,
+                );
                 self.extract_events_from_block(
                     &expr_while.body.stmts,
                     file_path,
@@ -288,6 +321,13 @@ impl EventParser {
                 );
             }
             Expr::ForLoop(expr_for) => {
+                self.extract_events_from_expr(
+                    &expr_for.expr,
+                    file_path,
+                    type_resolver,
+                    events,
+                    symbols,
+                );
                 self.extract_events_from_block(
                     &expr_for.body.stmts,
                     file_path,
@@ -314,7 +354,58 @@ impl EventParser {
                     symbols,
                 );
             }
-            _ => {}
+            // Blocks that are not control flow: unsafe { .. }, async { .. }, try { .. }, const { .. }
+            Expr::Unsafe(ExprUnsafe { block, .. })
+            | Expr::Async(ExprAsync { block, .. })
+            | Expr::TryBlock(ExprTryBlock { block, .. })
+            | Expr::Const(ExprConst { block, .. }) => {
+                self.extract_events_from_block(
+                    &block.stmts,
+                    file_path,
+                    type_resolver,
+                    events,
+                    symbols,
+                );
+            }
+            // Every other expression that holds expressions: an emit may be the body of a
+            // closure, an argument, an operand, the scrutinee of `if let`, a returned value, ...
+            other => {
+                for inner in Self::direct_subexpressions(other) {
+                    self.extract_events_from_expr(inner, file_path, type_resolver, events, symbols);
+                }
+            }
+        }
+    }
+
+    /// The expressions directly contained in an expression that is not handled on its own
+    fn direct_subexpressions(expr: &Expr) -> Vec<&Expr> {
+        match expr {
+            Expr::Closure(e) => vec![&*e.body],
+            Expr::Call(e) => std::iter::once(&*e.func).chain(e.args.iter()).collect(),
+            Expr::Paren(e) => vec![&*e.expr],
+            Expr::Group(e) => vec![&*e.expr],
+            Expr::Let(e) => vec![&*e.expr],
+            Expr::Reference(e) => vec![&*e.expr],
+            Expr::Unary(e) => vec![&*e.expr],
+            Expr::Cast(e) => vec![&*e.expr],
+            Expr::Field(e) => vec![&*e.base],
+            Expr::Binary(e) => vec![&*e.left, &*e.right],
+            Expr::Assign(e) => vec![&*e.left, &*e.right],
+            Expr::Index(e) => vec![&*e.expr, &*e.index],
+            Expr::Repeat(e) => vec![&*e.expr, &*e.len],
+            Expr::Tuple(e) => e.elems.iter().collect(),
+            Expr::Array(e) => e.elems.iter().collect(),
+            Expr::Range(e) => e.start.iter().chain(e.end.iter()).map(|b| &**b).collect(),
+            Expr::Return(e) => e.expr.iter().map(|b| &**b).collect(),
+            Expr::Break(e) => e.expr.iter().map(|b| &**b).collect(),
+            Expr::Yield(e) => e.expr.iter().map(|b| &**b).collect(),
+            Expr::Struct(e) => e
+                .fields
+                .iter()
+                .map(|field| &field.expr)
+                .chain(e.rest.iter().map(|b| &**b))
+                .collect(),
+            _ => Vec::new(),
         }
     }
 
